@@ -558,7 +558,7 @@ func genProcCase(t *Tape, c01only bool) *ProcCase {
 	g.rich = t.Chance(1, 2)
 	// program
 	usesFile := false
-	switch t.Weighted(4, 4, 2, 1) {
+	switch t.Weighted(4, 4, 2, 2) {
 	case 0:
 		sc := genStreamCase(t, streamGenOpts{mode: "c14", maxFiles: 0, maxVals: 0, selectors: false, sigProb: 15})
 		c.Prog = sc.ProgText
@@ -575,7 +575,8 @@ func genProcCase(t *Tape, c01only bool) *ProcCase {
 		c.Prog = strings.ReplaceAll(c.Prog, "\x00", "?")
 		usesFile = strings.Contains(c.Prog, "$file")
 	default:
-		c.Prog = []string{"", "{ print }", "-1 { print }", "# only a comment", "{ print $file }", "BEGIN { exit }", "{ print", "END { print 1 / 0 }"}[t.Draw(8)]
+		c.Prog = []string{"", "{ print }", "-1 { print }", "# only a comment", "{ print $file }", "BEGIN { exit }", "{ print", "END { print 1 / 0 }",
+			"BEGIN { print \"only begin\" }", "function f() { return 1 }\nBEGIN { print f() }", "BEGIN { x = 1 }\nBEGIN { print x }", "END { print \"only end\" }", "BEGINFILE { print \"bf\" }", "ENDFILE { print \"ef\" }"}[t.Draw(14)]
 		usesFile = strings.Contains(c.Prog, "$file")
 	}
 	// the program text as a byte string: endings and raw control characters must
@@ -645,12 +646,18 @@ func genProcCase(t *Tape, c01only bool) *ProcCase {
 		case 6:
 			c.OMode = "devfull"
 		default:
-			// stream-level defects in a regular file
+			// stream-level defects in a regular file or on stdin
 			if len(c.Inputs) > 0 {
 				i := t.Draw(len(c.Inputs))
 				d := c.Inputs[i].Data
 				if len(d) > 0 {
 					c.Inputs[i].Data = d[:t.Draw(len(d))]
+				}
+			} else if len(c.Stdin) > 0 {
+				if t.Chance(1, 2) {
+					c.Stdin = c.Stdin[:t.Draw(len(c.Stdin))]
+				} else {
+					c.Stdin = append(c.Stdin, []byte(" ] x")...)
 				}
 			}
 		}
